@@ -90,6 +90,7 @@ type recPlugin struct {
 	typ     string
 	w       *world
 	outcome func(msg *aio.Message) (bool, error) // set per send
+	full    bool                                 // the plugin's queue is full: Enqueue refuses
 }
 
 func (p *recPlugin) String() string           { return "verif:" + p.typ }
@@ -97,6 +98,9 @@ func (p *recPlugin) Type() string             { return p.typ }
 func (p *recPlugin) Start(chan<- error) error { return nil }
 func (p *recPlugin) Stop() error              { return nil }
 func (p *recPlugin) Enqueue(m *aio.Message) bool {
+	if p.full {
+		return false
+	}
 	p.w.lastMsg = &sentMsg{plugin: p.typ, typ: string(m.Type), data: string(m.Data), body: string(m.Body)}
 	ok, err := p.outcome(m)
 	m.Done(ok, err)
@@ -175,7 +179,7 @@ func (w *world) boot() error {
 		w.plugins[typ] = p
 		w.sender.VerifWorker().AddPlugin(p)
 	}
-	if w.store, err = sqlite.New(w.aio, mt, &sqlite.Config{Size: 100, BatchSize: 100, Path: w.path, TxTimeout: 5 * time.Second}); err != nil {
+	if w.store, err = sqlite.New(w.aio, mt, &sqlite.Config{Size: 100, BatchSize: 100, Path: "file:" + w.path + "?_busy_timeout=60", TxTimeout: 5 * time.Second}); err != nil {
 		return err
 	}
 	if err = w.store.Start(nil); err != nil {
@@ -391,6 +395,7 @@ func (w *world) route(s *sub, fail bool) {
 func (w *world) send(s *sub, outcome string) {
 	w.remove([]*sub{s})
 	for _, p := range w.plugins {
+		p.full = outcome == "full"
 		p.outcome = func(*aio.Message) (bool, error) {
 			switch outcome {
 			case "ok":
@@ -494,7 +499,20 @@ func (w *world) exec(batch []*sub, fail string) error {
 	for i, s := range batch {
 		sqes[i] = s.sqe
 	}
+	var hold *sql.Tx
+	if fail == "busy" {
+		// another connection holds a read transaction: the COMMIT of the batch cannot get the
+		// exclusive lock and fails with SQLITE_BUSY after the busy timeout
+		if tx, err := w.obs.Begin(); err == nil {
+			var n int
+			_ = tx.QueryRow("SELECT count(*) FROM promises").Scan(&n)
+			hold = tx
+		}
+	}
 	cqes := w.store.Process(sqes)
+	if hold != nil {
+		_ = hold.Rollback()
+	}
 	storeErr := false
 	for i, c := range cqes {
 		o, bg := w.owner(batch[i])
